@@ -3,7 +3,7 @@ from __future__ import annotations
 
 import ast
 
-from sa.astx import call_name, src, walk_local
+from sa.astx import NotConst, call_name, src, walk_local
 from sa.effects import class_accesses
 from sa.selftest import Mutant, Silent
 from sa.source import methods
@@ -119,6 +119,23 @@ def _reaches(ctx, g, facts, nodes, srcs, what):
     ctx.need(_must_pass_under(g, facts, nodes, srcs=srcs) is None,
              f"{what}: whether the action is taken is not decided by (handshakeDone, buffered, producer, disconnecting)")
     return True
+
+
+def _rebuffer_sites(ctx):
+    """The places that put unsent application bytes back into the pending queue, recognised by ROLE, not by the name of a helper: inside _write, in
+    the WantReadError handler of the OpenSSL send, either a call of self._bufferedWrite(x) or the append self._appSendBuffer.append(x) itself (the
+    one-caller helper written out in place).  Returns (view of _write, its CFG, send node, [(handler node, [(site node, x)])])."""
+    f = _F(ctx, T, "TLSMemoryBIOProtocol._write")
+    g = ctx.cfg(f)
+    snd = calls_with(g, "self._tlsConnection.send")
+    ctx.need(len(snd) == 1, "single self._tlsConnection.send() in _write")
+    sn = snd[0][0]
+    sites = [(n, c.args[0] if c.args else None) for n, c in calls_with(g, "self._bufferedWrite", "self._appSendBuffer.append")]
+    out = []
+    for h in succ_of(g, sn, "exc"):
+        if g.node(h).kind == "handler" and "WantReadError" in handler_names(g.node(h).ast):
+            out.append((h, [(n, a) for n, a in sites if g.dominates(h, n)]))
+    return f, g, sn, out
 
 
 def _replay_loop(ctx, g):
@@ -331,10 +348,24 @@ def _check(ctx):
             ctx.check(bool(lost_t) and w is None, "lost/no-data-after-lost", c,
                       "_lostTLSConnection is not set before the application's connectionLost: a later dataReceived/_write still reaches OpenSSL "
                       "and the application", witness=g.describe(w))
-            a = local_def(f, call.args[1]) if len(call.args) == 2 else None
-            ok = a is not None and test_value(ast.Compare(left=a, ops=[ast.Eq()], comparators=[ast.Constant("FIRST")]), {"self._reason": "FIRST", rparam: "TRANSPORT"}) is True \
-                and test_value(ast.Compare(left=a, ops=[ast.Eq()], comparators=[ast.Constant("TRANSPORT")]), {"self._reason": None, rparam: "TRANSPORT"}) is True
-            ctx.check(ok, "lost/first-reason-wins", c, "the application is not given 'the recorded TLS-level reason, else the transport's reason'")
+            # followed along the paths from the entry to the call, for both cases (a reason recorded by the TLS layer / none): whatever locals,
+            # conditional expressions or if-statements select the value, the argument must come out as the recorded reason, else the transport's
+            arg = call.args[1] if len(call.args) == 2 else None
+            outcomes = []
+            for recorded, want in (("FIRST", "FIRST"), (None, "TRANSPORT")):
+                for fa in facts_at(g, {"self._reason": recorded, rparam: "TRANSPORT"}, [n]):
+                    try:
+                        outcomes.append((peval(arg, fa) if arg is not None else None, want))
+                    except NotConst:
+                        outcomes.append((NotConst, want))
+            if arg is None or not outcomes:
+                ctx.violation("lost/first-reason-wins", c, "the application's connectionLost is not given a reason")
+            elif any(v is NotConst for v, _ in outcomes):
+                ctx.note(f"lost/first-reason-wins: the reason expression {src(arg)!r} could not be evaluated on some path; not decided for {c}")
+            else:
+                wrong = [(v, w_) for v, w_ in outcomes if v != w_]
+                ctx.check(not wrong, "lost/first-reason-wins", c, "the application is not given 'the recorded TLS-level reason, else the transport's reason'" +
+                          (f": gets {wrong[0][0]!r} where {wrong[0][1]!r} is due (FIRST = recorded by the TLS layer, TRANSPORT = the argument)" if wrong else ""))
     with ctx.section("TLSMemoryBIOProtocol._flushReceiveBIO"):
         # ---- sec: TLSMemoryBIOProtocol._flushReceiveBIO
         f = _F(ctx, T, "TLSMemoryBIOProtocol._flushReceiveBIO")
@@ -546,7 +577,13 @@ def _check(ctx):
         for a in acc:
             inl_ = _views(ctx).inliner(T)
             fn_ = a.func.split(".")[-1]          # a helper unknown to the rules inherits the permission of all its callers
-            okk = (a.kind == "append" and inl_.permitted(fn_, {"_bufferedWrite"})) \
+            in_role = False
+            if a.kind == "append" and fn_ == "_write":
+                # the helper written out in place: the append that the WantReadError handler of the send reaches
+                fw_, gw_, _, hs_ = _rebuffer_sites(ctx)
+                role_srcs = {src(gw_.node(n_).ast) for _, ss_ in hs_ for n_, _a in ss_}
+                in_role = src(a.node) in role_srcs or any(src(a.node) in t_ for t_ in role_srcs)
+            okk = (a.kind == "append" and (inl_.permitted(fn_, {"_bufferedWrite"}) or in_role)) \
                 or (a.kind in ("rebind-empty", "assign") and inl_.permitted(fn_, {"makeConnection", "_unbufferPendingWrites"}))
             ctx.check(okk, "buffer/fifo-who-may-write", ctx.construct(Q + a.func, a.node),
                       f"_appSendBuffer is modified by '{a.kind}' here: pending application writes must only be appended (FIFO) by _bufferedWrite "
@@ -633,7 +670,7 @@ def _check(ctx):
         w = g.must_pass(succ_of(g, sn, None), fsb, to=[sn, g.exit]) if succ_of(g, sn, None) else None
         ctx.check(bool(fsb) and w is None, "write/ciphertext-flushed", q + " | <after send>", "encrypted bytes are left in the send BIO after a successful send()",
                   witness=g.describe(w))
-        bw = calls_with(g, "self._bufferedWrite")
+        role = {h_: ss_ for h_, ss_ in _rebuffer_sites(ctx)[3]}
         for h in succ_of(g, sn, "exc"):
             if g.node(h).kind != "handler":
                 continue
@@ -642,13 +679,13 @@ def _check(ctx):
             back = g.path([h], [sn], strict=True, edge_ok=_nx)
             ctx.check(back is None, "write/handler-leaves-loop", hc, "after a failed send() the loop tries again with the same data", witness=g.describe(back))
             if "WantReadError" in names:
-                mine = [(n, c) for n, c in bw if g.dominates(h, n)]
+                mine = role.get(h, [])
                 w = g.must_pass([h], [n for n, _ in mine])
                 ctx.check(bool(mine) and w is None, "write/wantread-rebuffers", hc, "data OpenSSL cannot take yet is dropped instead of being buffered", witness=g.describe(w))
-                for n, c in mine:
-                    a = slice_parts(resolve_locals(f, c.args[0])) if c.args else None
+                for n, arg in mine:
+                    a = slice_parts(resolve_locals(f, arg)) if arg is not None else None
                     ctx.check(bool(a) and src(a[0]) == bparam and a[1] is not None and src(a[1]) == posv and a[2] is None, "write/wantread-rebuffers-unsent-suffix",
-                              ctx.construct(q, c), "what is re-buffered is not exactly the unsent suffix bytes[alreadySent:] (a prefix is duplicated or the tail is lost)")
+                              ctx.construct(q, g.node(n).ast), "what is re-buffered is not exactly the unsent suffix bytes[alreadySent:] (a prefix is duplicated or the tail is lost)")
             else:
                 fin = call_nodes(g, "self._tlsShutdownFinished")
                 w = g.must_pass([h], [n for n in fin if g.dominates(h, n)])
@@ -688,13 +725,26 @@ def _check(ctx):
         ctx.check(ok, "write/sequence-routes-through-write", QP + "writeSequence", "writeSequence does not go through write(b''.join(iovec)) (disconnect / ordering rules bypassed)")
     with ctx.section("TLSMemoryBIOProtocol._bufferedWrite"):
         # ---- sec: TLSMemoryBIOProtocol._bufferedWrite
-        f = _F(ctx, T, "TLSMemoryBIOProtocol._bufferedWrite")
-        g = ctx.cfg(f)
-        q = QP + "_bufferedWrite"
-        ps = call_nodes(g, "self._producer.pauseProducing")
-        w = must_pass_under(g, {"self._producer": NONNULL}, ps)
-        ctx.check(w is None, "backpressure/pause-on-buffering", q + " | <producer registered>", "a producer is not paused when its data has to be buffered", witness=g.describe(w))
-        ctx.check(not (reach_under(g, {"self._producer": None}) & set(ps)), "backpressure/pause-on-buffering", q + " | <no producer>", "pauseProducing on None")
+        from sa.source import methods as _methods_of
+        if "_bufferedWrite" in _methods_of(cls):
+            f = _F(ctx, T, "TLSMemoryBIOProtocol._bufferedWrite")
+            g = ctx.cfg(f)
+            q = QP + "_bufferedWrite"
+            ps = call_nodes(g, "self._producer.pauseProducing")
+            w = must_pass_under(g, {"self._producer": NONNULL}, ps)
+            ctx.check(w is None, "backpressure/pause-on-buffering", q + " | <producer registered>", "a producer is not paused when its data has to be buffered", witness=g.describe(w))
+            ctx.check(not (reach_under(g, {"self._producer": None}) & set(ps)), "backpressure/pause-on-buffering", q + " | <no producer>", "pauseProducing on None")
+        else:
+            # no such helper: the same clause at the place that plays its role - after the append in the WantReadError handler of the send
+            fw, g, sn_, hs = _rebuffer_sites(ctx)
+            q = QP + "_write"
+            appends = [n for _, ss in hs for n, _a in ss if "self._appSendBuffer.append" in src(g.node(n).ast)]
+            ctx.need(appends, "the place where unsent bytes are put into _appSendBuffer (no _bufferedWrite helper, no append in the WantReadError handler of _write)")
+            ps = call_nodes(g, "self._producer.pauseProducing")
+            after = [s_ for n in appends for s_ in succ_of(g, n, None)]
+            w = must_pass_under(g, {"self._producer": NONNULL}, ps, srcs=after, to=[g.exit, sn_])
+            ctx.check(w is None, "backpressure/pause-on-buffering", q + " | <producer registered>", "a producer is not paused when its data has to be buffered", witness=g.describe(w))
+            ctx.check(not (reach_under(g, {"self._producer": None}, srcs=after) & set(ps)), "backpressure/pause-on-buffering", q + " | <no producer>", "pauseProducing on None")
     with ctx.section("TLSMemoryBIOProtocol._flushSendBIO"):
         # ---- sec: TLSMemoryBIOProtocol._flushSendBIO
         f = _F(ctx, T, "TLSMemoryBIOProtocol._flushSendBIO")
@@ -927,6 +977,13 @@ def _check(ctx):
 
 _UB = ("        pendingWrites, self._appSendBuffer = self._appSendBuffer, []\n        for eachWrite in pendingWrites:\n            self._write(eachWrite)\n")
 MUTANTS = [
+    Mutant("inlined-rebuffering-does-not-pause-the-producer", T, '                self._bufferedWrite(bytes[alreadySent:])\n', '                unsent = bytes[alreadySent:]\n                self._appSendBuffer.append(unsent)\n', more=[(T, '    def _bufferedWrite(self, octets):\n        """\n        Put the given octets into L{TLSMemoryBIOProtocol._appSendBuffer}, and\n        tell any listening producer that it should pause because we are now\n        buffering.\n        """\n        self._appSendBuffer.append(octets)\n        if self._producer is not None:\n            self._producer.pauseProducing()\n\n', "")], expect_rule="backpressure/pause-on-buffering"),
+    Mutant("inlined-rebuffering-keeps-the-whole-write", T, '                self._bufferedWrite(bytes[alreadySent:])\n', '                self._appSendBuffer.append(bytes)\n                if self._producer is not None:\n                    self._producer.pauseProducing()\n', more=[(T, '    def _bufferedWrite(self, octets):\n        """\n        Put the given octets into L{TLSMemoryBIOProtocol._appSendBuffer}, and\n        tell any listening producer that it should pause because we are now\n        buffering.\n        """\n        self._appSendBuffer.append(octets)\n        if self._producer is not None:\n            self._producer.pauseProducing()\n\n', "")], expect_rule="write/wantread-rebuffers-unsent-suffix"),
+    Mutant("append-to-pending-queue-outside-the-wantread-handler", T, "                self._tlsShutdownFinished(Failure())\n                break\n            else:\n",
+           "                self._appSendBuffer.append(bytes[alreadySent:])\n                self._tlsShutdownFinished(Failure())\n                break\n            else:\n",
+           expect_rule="buffer/fifo-who-may-write"),
+    Mutant("lost-reason-if-selection-inverted", T, '        reason = self._reason or reason\n        self._reason = None\n',
+           "        recorded = self._reason\n        self._reason = None\n        if not recorded:\n            reason = recorded\n", expect_rule="lost/first-reason-wins"),
     Mutant("lose-shutdown-ignores-buffered-writes", T, "        if not self._appSendBuffer and self._producer is None:\n            self._shutdownTLS()\n",
            "        if self._producer is None:\n            self._shutdownTLS()\n", expect_rule="shutdown/not-while-writes-buffered"),
     Mutant("unbuffer-forgets-postponed-shutdown", T, "        if self.disconnecting:\n            # Finally, if we have no further buffered data, no producer wants\n",
@@ -994,6 +1051,9 @@ MUTANTS = [
            expect_rule="aggregate/sequence-routes-through-aggregator"),
 ]
 SILENT = [
+    Silent("buffered-write-helper-written-out-in-the-wantread-handler", T, '                self._bufferedWrite(bytes[alreadySent:])\n', '                unsent = bytes[alreadySent:]\n                self._appSendBuffer.append(unsent)\n                listening = self._producer\n                if listening is not None:\n                    listening.pauseProducing()\n', more=[(T, '    def _bufferedWrite(self, octets):\n        """\n        Put the given octets into L{TLSMemoryBIOProtocol._appSendBuffer}, and\n        tell any listening producer that it should pause because we are now\n        buffering.\n        """\n        self._appSendBuffer.append(octets)\n        if self._producer is not None:\n            self._producer.pauseProducing()\n\n', "")]),
+    Silent("lost-reason-selected-by-if-through-a-local", T, '        reason = self._reason or reason\n        self._reason = None\n',
+           "        recorded = self._reason\n        self._reason = None\n        if recorded:\n            reason = recorded\n"),
     Silent("unbuffer-loop-over-generator-helper", T, _UB, "        for eachWrite in self._detachPendingWrites():\n            self._write(eachWrite)\n",
            more=[(T, "    def _unbufferPendingWrites(self):\n", "    def _detachPendingWrites(self):\n        pendingWrites, self._appSendBuffer = self._appSendBuffer, []\n"
                   "        for eachWrite in pendingWrites:\n            yield eachWrite\n\n    def _unbufferPendingWrites(self):\n")]),
